@@ -632,11 +632,12 @@ namespace
             if (r.chance(1, 40)) nops *= 8; // a long history: what only accumulates over hundreds or thousands of operations
             for (int i = 0; i < nops; i++)
             {
-                int k = (int)r.below(8);
+                int k = (int)r.below(9);
                 int64_t iv = r.range(1, 50);
                 switch (k)
                 {
                 case 7: p.ops.push_back({7, (int64_t)r.below(nt), (int64_t)r.below(2), iv}); break;
+                case 8: p.ops.push_back({8, (int64_t)r.below(nt), r.range(-20, 100), iv, (int64_t)r.below(2)}); break;
                 case 0: p.ops.push_back({0, r.chance(1, 8) ? r.range(50, 2000) : r.range(0, 20)}); break;
                 case 1: p.ops.push_back({1, (int64_t)r.below(nt), r.range(-20, 100), iv}); break;
                 case 2: p.ops.push_back({2, (int64_t)r.below(nt), r.range(-20, 100), iv}); break;
@@ -671,10 +672,27 @@ namespace
             };
             for (auto &o : p.ops)
             {
-                int kind = (int)mod(arg(o, 0), 8);
+                int kind = (int)mod(arg(o, 0), 9);
                 int ti = (int)mod(arg(o, 1), n);
                 switch (kind)
                 {
+                case 8:
+                {
+                    // the owner sets the (public) fields by hand, in storage that held something else before and that no library
+                    // function has written since: a timer that is a member of a recycled object, armed or left disarmed
+                    int64_t iv = mod(arg(o, 3) - 1, 1000) + 1;
+                    int64_t back = arg(o, 2) % 5000;
+                    memset((void *)&st[ti], 0xA5, sizeof st[ti]);
+                    st[ti].start = now - back;
+                    st[ti].interval = iv;
+                    st[ti].planed = mod(arg(o, 4), 2) ? 1 : 0;
+                    m[ti].start = now - back;
+                    m[ti].interval = iv;
+                    m[ti].planned = mod(arg(o, 4), 2) != 0;
+                    probe("stimer_fields_set_by_hand_in_dirty_storage");
+                    check(ti, "set-by-hand");
+                    break;
+                }
                 case 7:
                 {
                     // a periodic block that does more than run to its end: it gives its own timer a new period, or it leaves the
